@@ -38,6 +38,7 @@ void* raw_alloc(intptr_t pool_id, size_t& bytes) {
         return nullptr;
     }
     char* p = (char*)malloc(bytes);
+    sim::note("pool%d raw_alloc %p..%p (%zu)", pc.id, (void*)p, (void*)(p + bytes), bytes);
     g_regions->push_back({p, bytes, pc.id, false});
     return p;
 }
@@ -50,6 +51,7 @@ int raw_free(intptr_t pool_id, void* ptr, size_t bytes) {
             // nothing may be handed back while a block inside it is still in use by the program
             for (void* b : pc.blocks) SIM_CHECK(!((char*)b >= r.p && (char*)b < r.p + r.n), "oracle:pool-raw-free", "pool %d returned region %p while block %p inside it is still in use", pc.id, ptr, b);
             r.freed = true;
+            sim::note("pool%d raw_free %p (%zu)", pc.id, ptr, bytes);
             if (!pc.fixed) free(ptr);
             return 0;
         }
@@ -172,6 +174,7 @@ SIM_SCENARIO(scen_c18, "c18", "C18", 3000000, 20000) {
                     SIM_CHECK(rml::pool_identify(q) == pc.pool, "oracle:pool-identify", "pool_identify(%p) does not name pool %d", q, pc.id);
                     if (p.k == P_ALIGNED) SIM_CHECK((uintptr_t)q % (p.align > 4096 ? 4096 : p.align) == 0, "oracle:alignment", "pool_aligned_malloc result %p not aligned to %zu", q, p.align);
                     heap.on_alloc(q, sz, 0, false, kOp[p.k], pc.pool);
+                    sim::note("pool%d %s by T%d: %p size %zu", pc.id, kOp[p.k], t, q, sz);
                     pc.blocks.push_back(q);
                 } else if (p.k == P_FREE && !pc.blocks.empty()) {
                     size_t i = (size_t)p.pick % pc.blocks.size(); void* q = pc.blocks[i]; pc.blocks.erase(pc.blocks.begin() + (long)i);
@@ -226,6 +229,8 @@ SIM_SCENARIO(scen_c18, "c18", "C18", 3000000, 20000) {
                 check_inside(pc, q, sz, who);
                 SIM_CHECK(rml::pool_identify(q) == pc.pool, "oracle:pool-identify", "pool_identify(%p) does not name pool %d (after pool_reset)", q, pc.id);
                 heap.on_alloc(q, sz, 0, false, who, pc.pool);
+                sim::note("pool%d %s: %p size %zu", pc.id, who, q, sz);
+                heap.check_all("after an allocation that follows pool_reset");
                 pc.blocks.push_back(q);
                 sim::upoint();
             }
